@@ -57,12 +57,6 @@ static Num scan_int(const char* s, int base)
    n.len = i;
    return n;
 }
-extern "C" long m_strtol(const char* s, char** end, int base)
-{
-   Num n = scan_int(s, base);
-   if(end != nullptr) *end = (char*)(n.any ? s + n.len : s);
-   return n.neg ? -n.val : n.val;
-}
 // std::stod: decimal literals without exponent: [blanks][sign] digits [. digits] | . digits ; everything else that could start a
 // number for the C library (inf, nan, hex, exponent) is outside the stated bounds. The VALUE is scripted.
 static double g_strtod_val;
@@ -91,46 +85,67 @@ struct XOutOfRange { int x; };
 extern "C" void m_string_ctor(std::string* self, const char* s, const std::allocator<char>& a) { RawString* r = reinterpret_cast<RawString*>(self); r->p = s; r->len = 0; }
 extern "C" void m_string_dtor(std::string* self) { }
 static const char* chars_of(const std::string& s) { return reinterpret_cast<const RawString*>(&s)->p; }
+// The parse functions run their conversion code once per table entry (the loop over the parameters is unrolled by the
+// solver), so the conversion models must be O(1): everything they need to know about the VALUE TOKEN is computed once by the
+// reference (below) from the harness' own copy of the text; a model only checks that the pointer it is given IS the value
+// token inside the buffer the real code works on (g_value_ptr). If it is not (assertion 12 after the call), the model
+// answers arbitrarily (scripted), which over-approximates whatever text the real code handed over.
+struct Pre { bool has; Num d10, d4, d5; bool real_ok, real_conv; bool is_true4, is_t, is_false5, is_f; };
+static Pre g_pre; static const char* g_value_ptr; static bool g_ptr_ok;
+static int g_wild_int; static bool g_wild_flag;
+static bool at_value(const char* ptr)
+{
+   bool ok = g_pre.has && ptr == g_value_ptr;
+   if(!ok) g_ptr_ok = false;
+   return ok;
+}
 extern "C" int m_stoi(const std::string& str, size_t* idx, int base)
 {
-   Num n = scan_int(chars_of(str), 10);
-   if(!n.any) throw XInvalidArgument();
-   long v = n.neg ? -n.val : n.val;
+   if(!at_value(chars_of(str))) { if(g_wild_flag) throw XInvalidArgument(); return g_wild_int; }
+   if(!g_pre.d10.any) throw XInvalidArgument();
+   long v = g_pre.d10.neg ? -g_pre.d10.val : g_pre.d10.val;
    if(v < -2147483647L - 1 || v > 2147483647L) throw XOutOfRange();
    return (int)v;
 }
 extern "C" unsigned long m_stoul(const std::string& str, size_t* idx, int base)
 {
-   Num n = scan_int(chars_of(str), 10);
-   if(!n.any) throw XInvalidArgument();
-   return n.neg ? (unsigned long)(-n.val) : (unsigned long)n.val;
+   if(!at_value(chars_of(str))) { if(g_wild_flag) throw XInvalidArgument(); return (unsigned long)(long)g_wild_int; }
+   if(!g_pre.d10.any) throw XInvalidArgument();
+   return g_pre.d10.neg ? (unsigned long)(-g_pre.d10.val) : (unsigned long)g_pre.d10.val;
 }
 extern "C" double m_stod(const std::string& str, size_t* idx)
 {
-   bool conv = false;
-   bool ok = real_shape_ok(chars_of(str), conv);
-   vp_assume(ok);
-   if(!conv) throw XInvalidArgument();
+   if(!at_value(chars_of(str))) { if(g_wild_flag) throw XInvalidArgument(); return g_strtod_val; }
+   vp_assume(g_pre.real_ok);
+   if(!g_pre.real_conv) throw XInvalidArgument();
    return g_strtod_val;
 }
+// the code under test calls strtol(value, nullptr, 4) and (value, nullptr, 5) only
+extern "C" long m_strtol(const char* s, char** end, int base)
+{
+   vp_assume(end == nullptr && (base == 4 || base == 5));
+   if(!at_value(s)) return g_wild_int;
+   const Num& n = base == 4 ? g_pre.d4 : g_pre.d5;
+   return n.neg ? -n.val : n.val;
+}
+// the code under test compares the value with "true"/"TRUE"/"t"/"T" (n = 4) and "false"/"FALSE"/"f"/"F" (n = 5)
 extern "C" int m_strncasecmp(const char* a, const char* b, size_t n)
 {
-   for(size_t i = 0; i < n; ++i)
-   {
-      int x = c_lower((unsigned char)a[i]), y = c_lower((unsigned char)b[i]);
-      if(x != y) return x - y;
-      if(x == 0) return 0;
-   }
-   return 0;
+   vp_assume(n == 4 || n == 5);
+   bool single = b[1] == '\0';
+   if(!at_value(a)) return g_wild_flag ? 0 : 1;
+   bool eq = n == 4 ? (single ? g_pre.is_t : g_pre.is_true4) : (single ? g_pre.is_f : g_pre.is_false5);
+   return eq ? 0 : 1;
 }
 // spxSnprintf(t, len, "%s", src): the only use in the code under test
 // The target is an uninitialised stack buffer: what lies behind the copied string is modelled as GN arbitrary bytes (drawn by
 // the harness) followed by zeros; the native build puts the same bytes there by soiling the stack before the call.
 #define GN 8
 #define GZ 4
-static const char* g_src; static unsigned char g_garbage[GN];
+static const char* g_src; static unsigned char g_garbage[GN]; static int g_value_off;
 extern "C" int m_spxsnprintf(char* t, size_t len, const char* fmt, ...)
 {
+   g_value_ptr = t + g_value_off;                    // the value token inside the internal copy
    size_t i = 0;
    for(; i + 1 < len && g_src[i] != '\0'; ++i) t[i] = g_src[i];
    t[i] = '\0';
@@ -190,10 +205,10 @@ static bool tok_eq(const Tok& t, const char* w, int n, bool nocase = false)
    for(int i = 0; i < n; ++i) if((nocase ? c_lower(t.c[i]) : (int)t.c[i]) != w[i]) return false;
    return true;
 }
-static bool tok_starts(const Tok& t, const char* w, int n)
+static bool tok_starts(const Tok& t, const char* w, int n, bool nocase = false)
 {
    if(n > LEN || t.n < n) return false;
-   for(int i = 0; i < n; ++i) if(t.c[i] != w[i]) return false;
+   for(int i = 0; i < n; ++i) if((nocase ? c_lower(t.c[i]) : (int)t.c[i]) != w[i]) return false;
    return true;
 }
 #define TOK_IS(t, w) tok_eq(t, w, (int)sizeof(w) - 1)
@@ -204,10 +219,11 @@ enum Verdict { V_EMPTY,        // blank or comment line: true, no call
                V_CALL,         // exactly this setter call, result = its result
                V_UNSPEC        // outside the documented format (see below): only memory safety, no exception, <= 1 call
              };
-struct Expect { Verdict v; int kind, idx; long ival; bool isreal; bool throws; int vb, ve; };
+struct Expect { Verdict v; int kind, idx; long ival; bool isreal; bool throws; bool hasval; int vb, ve; };
 static Expect reference(const char* s)
 {
-   Expect x; x.v = V_MALFORMED; x.kind = -1; x.idx = -1; x.ival = 0; x.isreal = false; x.throws = false;
+   Expect x; x.v = V_MALFORMED; x.kind = -1; x.idx = -1; x.ival = 0; x.isreal = false; x.throws = false; x.hasval = false; x.vb = 0; x.ve = 0;
+   g_pre.has = false;
    int i = 0;
    while(t_blank(s[i])) ++i;
    if(t_end(s[i])) { x.v = V_EMPTY; return x; }
@@ -239,11 +255,17 @@ static Expect reference(const char* s)
    Tok vl; vl.b = i;
    while(!t_blank(s[i]) && !t_end(s[i])) ++i;
    vl.e = i; tok_copy(s, vl);
+   x.hasval = true; x.vb = vl.b; x.ve = vl.e;
+   // everything the conversion models need to know about the value token
+   g_pre.has = true;
+   g_pre.d10 = scan_int(vl.c, 10); g_pre.d4 = scan_int(vl.c, 4); g_pre.d5 = scan_int(vl.c, 5);
+   g_pre.real_conv = false; g_pre.real_ok = real_shape_ok(vl.c, g_pre.real_conv);
+   g_pre.is_true4 = tok_starts(vl, "true", 4, true); g_pre.is_t = TOK_IS_NOCASE(vl, "t");
+   g_pre.is_false5 = tok_starts(vl, "false", 5, true); g_pre.is_f = TOK_IS_NOCASE(vl, "f");
    bool sep_unspec = (s[vl.e] == '#' || s[vl.e] == '\n');   // the real parser steps over it like a blank and then wants the
                                                              // line to end: "v#c" is rejected, "v #c" accepted: not specified here
    while(t_blank(s[i])) ++i;
    if(!t_end(s[i])) return x;                        // trailing garbage
-   x.vb = vl.b; x.ve = vl.e;
    // type
    int kind = -1;
    if(TOK_IS(ty, "bool")) kind = K_BOOL;
@@ -277,7 +299,7 @@ static Expect reference(const char* s)
    if(kind == K_INT || kind == K_SEED)
    {
       // an integer literal: [sign] digits (anything behind the digits is ignored by std::stoi)
-      Num n = scan_int(vl.c, 10);
+      Num n = g_pre.d10;
       if(!n.any) { x.v = V_MALFORMED; x.throws = true; return x; }          // not a number: must be reported as failure
       long v = n.neg ? -n.val : n.val;
       if(kind == K_INT)
@@ -293,9 +315,8 @@ static Expect reference(const char* s)
       return x;
    }
    // real
-   bool conv = false;
-   if(!real_shape_ok(vl.c, conv)) { x.v = V_UNSPEC; return x; }
-   if(!conv) { x.v = V_MALFORMED; x.throws = true; return x; }
+   if(!g_pre.real_ok) { x.v = V_UNSPEC; return x; }
+   if(!g_pre.real_conv) { x.v = V_MALFORMED; x.throws = true; return x; }
    x.v = V_CALL; x.isreal = true;
    return x;
 }
@@ -344,6 +365,8 @@ template <int WHICH> static void parse_obligation()
    int p = vp_int_in(0, LEN);
    g_ret = vp_nondet_bool();
    g_strtod_val = vp_small(-8, 8);
+   g_wild_int = vp_nondet_int();
+   g_wild_flag = vp_nondet_bool();
    if(WHICH == 1)
       for(int k = 0; k < GN; ++k)
       {
@@ -359,7 +382,8 @@ template <int WHICH> static void parse_obligation()
    for(int i = 0; i <= LEN; ++i) b[i] = ref[i];
 #endif
    SoPlex* sp = make_solver();
-   g_calls = 0; g_src = b + p;
+   g_calls = 0; g_src = b + p; g_ptr_ok = true;
+   g_value_off = x.vb; g_value_ptr = b + p + x.vb;   // parseSettingsString: reset by the copy model to the internal buffer
    bool ret = false, threw = false;
    try
    {
@@ -378,6 +402,7 @@ template <int WHICH> static void parse_obligation()
    }
    vp_assert(!threw, 1);                             // malformed text is reported through the return value, never by an exception
 #ifndef VP_NATIVE
+   vp_assert(g_ptr_ok, 12);                          // every conversion was applied to the value token and to nothing else
    vp_assert(g_calls <= 1, 2);
    if(x.v == V_EMPTY) { vp_assert(ret, 3); vp_assert(g_calls == 0, 4); }
    if(x.v == V_MALFORMED) { vp_assert(!ret, 5); vp_assert(g_calls == 0, 6); }
